@@ -35,8 +35,9 @@ PKG = {
     "rule": "one evaluation = one (scenario, schedule) execution on the gated paused-clock tokio runtime: a probe actor under a "
             "supervisor, 1-5 timers (send_after / send_interval / exit_after / kill_after through ActorCell, ActorRef and "
             "DerivedActorRef entry points; periods 0, 1, 5, 50 ms), client tasks that create / abort / join timers and stop / kill / "
-            "drain / fail the target at scripted virtual times (before, at, after expiry); micro-scenarios by DFS over poll orders "
-            "(preemption bound 3, capped), random scenarios under seeded random schedules; distinct = distinct event-sequence hash; "
+            "drain / fail the target at scripted virtual times (before, at, after expiry); two scenarios with three timers due at the same "
+            "instant explored by an unbounded DFS to exhaustion (every poll order), micro-scenarios by DFS over poll orders "
+            "(preemption bound 3, capped) plus random orders, random scenarios under seeded random schedules; distinct = distinct event-sequence hash; "
             "non-trivial = at least one preemption",
 }
 
